@@ -80,10 +80,10 @@ Inductive hnode := HSymbolGraph | HExprTable | HProgram | HWrapper (o : obj) | H
 Inductive strength := Strong | Weak.
 Definition href := (hnode * strength * hnode)%type.
 
-Fixpoint var_refs (k : nat) (vs : list (cls * list obj)) : list href :=
+Fixpoint var_refs (k : nat) (vs : list (cls * vstate)) : list href :=
   match vs with
   | [] => []
-  | v :: vs' => (HExprTable, Strong, HVar k) :: map (fun o => (HVar k, Strong, HObj o)) (snd v) ++ var_refs (S k) vs'
+  | v :: vs' => (HExprTable, Strong, HVar k) :: map (fun o => (HVar k, Strong, HObj o)) (cache_of v) ++ var_refs (S k) vs'
   end.
 
 Definition refs (s : st) : list href :=
@@ -160,9 +160,41 @@ Section Life.
   Lemma pinned_app vs v o : pinned vs o = true -> pinned (vs ++ [v]) o = true.
   Proof. unfold pinned. rewrite existsb_app. intros H. apply orb_true_iff. left. exact H. Qed.
 
+  Lemma pinned_set_nth o v : forall vs k old, nth_error vs k = Some old -> cache_of old = [] ->
+    pinned vs o = true -> pinned (set_nth k v vs) o = true.
+  Proof.
+    induction vs as [|a vs IH]; intros k old Hn Hc Hp; [destruct k; discriminate|].
+    destruct k as [|k]; simpl in *.
+    - inversion Hn; subst a. rewrite Hc in Hp. simpl in Hp. rewrite Hp. apply orb_true_r.
+    - apply orb_true_iff in Hp. apply orb_true_iff. destruct Hp as [Hp|Hp]; auto. right. eapply IH; eauto.
+  Qed.
+
+  Lemma pinned_clear vs o :
+    pinned (map (fun v : cls * vstate => match snd v with VPending => (fst v, VStale) | _ => v end) vs) o = pinned vs o.
+  Proof.
+    induction vs as [|[T [| |l]] vs IH]; simpl in *; auto; now rewrite IH.
+  Qed.
+
+  (* declaring a domain-less variable reads nothing and holds nothing *)
+  Lemma declare_holds_nothing s T o :
+    live (fst (step s (DeclV T))) = live s /\ user (fst (step s (DeclV T))) = user s /\ g (fst (step s (DeclV T))) = g s /\
+    pinned (vars (fst (step s (DeclV T)))) o = pinned (vars s) o.
+  Proof.
+    simpl. repeat split. unfold pinned. rewrite existsb_app. simpl. now rewrite !orb_false_r.
+  Qed.
+
+  (* declare-and-evaluate at once (QueryE) is declare followed by the first evaluation *)
+  Lemma fused_is_declare_eval s T :
+    snd (step s (QueryE T)) = snd (step (fst (step s (DeclV T))) (EvalV (length (vars s)))) /\
+    live (fst (step s (QueryE T))) = live (fst (step (fst (step s (DeclV T))) (EvalV (length (vars s))))) /\
+    g (fst (step s (QueryE T))) = g (fst (step (fst (step s (DeclV T))) (EvalV (length (vars s))))).
+  Proof.
+    simpl. rewrite nth_error_app2 by auto. rewrite Nat.sub_diag. simpl. auto.
+  Qed.
+
   Lemma step_Accounted s o : Accounted s -> Accounted (fst (step s o)).
   Proof.
-    intros HA. unfold Accounted in *. destruct o as [c p i|x| |T|T|k|a f b ia ib|]; simpl; auto.
+    intros HA. unfold Accounted in *. destruct o as [c p i|x| |T|T|T|k|a f b ia ib|]; simpl; auto.
     - intros y Hy. apply in_app_iff in Hy. rewrite in_app_iff. destruct Hy as [Hy|[<-|[]]]; simpl; auto.
       destruct (HA _ Hy); auto.
     - destruct (pinned (vars s) x) eqn:P; simpl; intros y Hy.
@@ -171,8 +203,11 @@ Section Life.
       + apply filter_In in Hy. destruct Hy as [Hy N]. apply negb_true_iff, Nat.eqb_neq in N.
         destruct (HA _ Hy) as [H|H]; auto. left. apply filter_In. split; auto. apply negb_true_iff, Nat.eqb_neq. auto.
     - intros y Hy. simpl in Hy. destruct (HA _ Hy); auto. right. now apply pinned_app.
-    - destruct (nth_error (vars s) k); simpl; auto.
+    - intros y Hy. simpl in Hy. destruct (HA _ Hy); auto. right. now apply pinned_app.
+    - destruct (nth_error (vars s) k) as [[T [| |l]]|] eqn:E; simpl; auto.
+      intros y Hy. destruct (HA _ Hy); auto. right. eapply pinned_set_nth; eauto.
     - destruct (relate _ _ _ _ _ _ _) as [r [nw|]]; simpl; auto.
+    - intros y Hy. rewrite pinned_clear. auto.
   Qed.
 
   Theorem run_Accounted : forall h s, Accounted s -> Accounted (fst (run s h)).
